@@ -39,3 +39,7 @@ claim("C20",
   "fallback.doFallback is executed with its real goroutines, channels, select, pooled timer and context package under a bounded-preemption scheduler: with the threshold timer disarmed, for all 3x3 worker outcomes x always_standby and every schedule within the bound the primary's answer is returned whenever it produces one, the secondary is not started (non-standby) unless the primary failed, the secondary's answer is used only after primary failure, ErrFailed iff both fail; with all timers free to fire at any scheduling point and optional caller cancellation the call always returns, an answer is one of the workers' answers, ErrFailed only if both failed, other errors are the context's.",
   "Preemption bound: C20_noTimer quick 2 / thorough 3, C20_timers quick 1 / thorough 2 (a timer firing while threads are runnable counts as a preemption); harness executables finish at an arbitrary scheduling point; schedule-dependent counterexamples are confirmed by native stress replay (up to 300000 iterations), not by a forced schedule.",
   "DESIGN.md §6 C20")
+claim("C02",
+  "TraditionalDnsConn (UDP datagrams and length-prefixed streams; reserve/exchange/readLoop/queue) and ReuseConnTransport (dial goroutine, reusableConn.exchange/readLoop) are executed with their real goroutines against a harness connection whose server answers every frame exactly once at an arbitrary scheduling point after the write - including before Write returns (synchronous connection) and between Write and the final select - optionally followed by EOF: in every schedule within the bound every caller returns its own reply with nil error; a caller left blocked in a maximal state is reported as a violation.",
+  "1 caller (quick) / 2 concurrent callers (thorough) on the pipelined connection, 1 caller on the non-pipelined transport; preemption bound quick 2 / thorough 3; no timer fires (frozen clock, deadlines are no-ops, UDP resend ticker never fires); lazy-dial connections are exercised in C09; native confirmation by synchronous connection and stress replay.",
+  "DESIGN.md §6 C02")
